@@ -114,7 +114,7 @@ func (sto *unionStorage) StatBlobs(ctx context.Context, blobs []blob.Ref, f func
 	}
 	// need to dedup the blobs
 	maybeDup := make(chan blob.SizedRef)
-	errCh := make(chan error, 1)
+	errCh := make(chan error, len(sto.subsets)) // every subset may fail
 	var wg sync.WaitGroup
 	var any bool
 	for _, s := range sto.subsets {
@@ -134,27 +134,44 @@ func (sto *unionStorage) StatBlobs(ctx context.Context, blobs []blob.Ref, f func
 		return errors.New("union: No BlobStatter reader configured")
 	}
 
-	var closeChanOnce sync.Once
+	// maybeDup is closed only once every sender is done: closing it
+	// earlier makes a subset that is still reporting panic on its send.
 	go func() {
 		wg.Wait()
-		closeChanOnce.Do(func() { close(maybeDup) })
+		close(maybeDup)
 	}()
+	// drain lets the subsets still running finish after an early return.
+	drain := func() {
+		go func() {
+			for range maybeDup {
+			}
+		}()
+	}
 
 	seen := make(map[blob.Ref]struct{}, len(blobs))
 	for {
 		select {
 		case <-ctx.Done():
+			drain()
 			return ctx.Err()
 		case err := <-errCh:
-			closeChanOnce.Do(func() { close(maybeDup) })
+			drain()
 			return err
 		case sr, ok := <-maybeDup:
 			if !ok {
-				return nil
+				// All subsets are done; one may have failed without
+				// this loop having seen its error yet.
+				select {
+				case err := <-errCh:
+					return err
+				default:
+					return nil
+				}
 			}
 			if _, ok = seen[sr.Ref]; !ok {
 				seen[sr.Ref] = struct{}{}
 				if err := f(sr); err != nil {
+					drain()
 					return err
 				}
 			}
